@@ -799,6 +799,8 @@ def _life(rep, tier, prop, fams, needed):
             note = r.get("note", {})
             if note.get("read_differs") or note.get("read_failed"):
                 rep.mismatch({"kind": "wire_trip_changed_block", "family": fam}, mk)
+            if note.get("untouched_rejected"):
+                rep.mismatch({"kind": "untouched_block_rejected", "family": fam}, mk)
             if note.get("signature_count"):
                 rep.mismatch({"kind": "constructor_signature_count", "family": fam}, mk)
             if note.get("bytes_differ") is False:
